@@ -464,6 +464,89 @@ def _ptr_struct(prog, f, p):
     return None
 
 
+STATEFUL_CODEC = {"inflate": 0, "deflate": 0, "LZ4_decompress_safe_continue": 0, "LZ4_compress_fast_continue": 0,
+                  "LZ4_decompress_fast_continue": 0, "ZSTD_decompressStream": 0, "ZSTD_compressStream": 0,
+                  "ZSTD_compressStream2": 0, "lzma_code": 0, "BZ2_bzDecompress": 0, "BZ2_bzCompress": 0}
+CODEC_RESET = {"inflateReset", "inflateReset2", "deflateReset", "LZ4_setStreamDecode", "LZ4_resetStream", "LZ4_resetStream_fast",
+               "ZSTD_DCtx_reset", "ZSTD_CCtx_reset", "ZSTD_initDStream", "ZSTD_initCStream"}
+
+
+def codec_state_rule(chk, prog):
+    """K3-statereset: a block is unpacked (and packed) from its own bytes alone.  Where an implementation of
+    sqfs_compressor_t.do_block hands library state that lives in the compressor object (the object is shared by every
+    reader of an image and lives as long as they do) to a streaming call of a codec library -- a call that carries
+    history from one invocation to the next -- that state is reset by the library's reset call on the same state before,
+    in the same invocation.  State in a local of the function is fresh by construction."""
+    n = 0
+    for f in sorted(prog.slot_impls(("struct.sqfs_compressor_t", "do_block")), key=lambda x: x.qname):
+        if f.decl:
+            continue
+        f.build()
+        cl, _e, _u = prog.reachable_from([f], stop=lambda g, u=f.unit: g.unit is not u)
+        for g in cl:
+            for c in g.build().calls():
+                nm = norm_callee(c.callee) if c.callee else None
+                if nm not in STATEFUL_CODEC or len(c.ops) <= STATEFUL_CODEC[nm]:
+                    continue
+                stp = c.ops[STATEFUL_CODEC[nm]]
+                base = strip_casts(resolve_ptr(prog, stp, g.unit)[0])
+                # through a pointer member: the state object is designated by a field of something
+                if base.is_inst and base.op == "load":
+                    q = strip_casts(resolve_ptr(prog, base.ops[0], g.unit)[0])
+                    if q.is_inst and q.op == "alloca":
+                        continue
+                    holder = True
+                elif base.is_inst and base.op == "alloca":
+                    continue                    # a local stream: initialised in this invocation
+                else:
+                    holder = base.is_arg or (base.is_inst and base.op in ("phi", "select"))
+                if not holder:
+                    continue
+                n += 1
+                chk.analysed(g)
+                inst = "%s:%s@%d" % (g.name, nm, c.line)
+                resets = [r for r in g.calls() if norm_callee(r.callee) in CODEC_RESET and r.ops and
+                          _same_state(prog, g, r.ops[0], stp)]
+                ok = any(g.inst_dominates(r, c) for r in resets)
+                if not ok and resets:
+                    # compress / decompress arms each with their own reset: no way to the call avoids all of them
+                    rb = {r.bb for r in resets if not (r.bb is c.bb and r.pos > c.pos)}
+                    seen_, st_, reach = set(), [g.blocks[0]], False
+                    while st_:
+                        b_ = st_.pop()
+                        if b_ in seen_ or b_ in rb:
+                            continue
+                        seen_.add(b_)
+                        if b_ is c.bb:
+                            reach = True
+                            break
+                        st_.extend(b_.succs)
+                    ok = not reach
+                if not ok and g is not f:
+                    # the reset may be in the caller, in front of the helper's call
+                    for cs in prog.callers_of(g):
+                        if cs.fn in cl and any(norm_callee(r.callee) in CODEC_RESET and cs.fn.inst_dominates(r, cs) for r in cs.fn.build().calls()):
+                            ok = True
+                if ok:
+                    chk.ok("K3-statereset", inst, c, "the library state kept in the compressor object is reset before it is used for this block")
+                else:
+                    chk.violation("K3-statereset", inst, c, "%s works on library state that lives in the compressor object and is not reset "
+                                  "in this invocation: what the call before left behind (the history window of the last block any "
+                                  "reader unpacked) takes part in unpacking this block" % nm)
+    return n
+
+
+def _same_state(prog, g, a, b):
+    ra, rb = resolve_ptr(prog, a, g.unit), resolve_ptr(prog, b, g.unit)
+    x, y = strip_casts(ra[0]), strip_casts(rb[0])
+    if x is y and ra[1] == rb[1]:
+        return True
+    if x.is_inst and y.is_inst and x.op == "load" and y.op == "load":
+        qa, qb = resolve_ptr(prog, x.ops[0], g.unit), resolve_ptr(prog, y.ops[0], g.unit)
+        return strip_casts(qa[0]) is strip_casts(qb[0]) and qa[1] == qb[1]
+    return False
+
+
 def same_bound_rule(chk, prog, units_prefix=("lib/sqfs/src/",)):
     """K12-samebound (a contradiction rule): a reader that compares one of its arguments with a member of the reader more
     than once in a function -- the hit path and the miss path of a cache, typically -- uses the same relation each
@@ -1037,7 +1120,10 @@ def run(chk):
         "the previous block; for the data reader's pointer caches: tag change or free is followed by payload "
         "replacement on all paths and the out-parameter callee stores NULL before every failing return; cache-hit "
         "returns are guarded by tag (and pointer) tests; the xattr value readers seek back to the saved position "
-        "on every success path with the out-of-line flag; no other history-carrying reader field exists.")
+        "on every success path with the out-of-line flag; no other history-carrying reader field exists. Static helpers are "
+        "part of their callers (summaries). K12-samebound: an argument compared with a reader member more than once in a "
+        "function is compared with the same relation (hit and miss path answer alike); K9-copytag: a copy hook that takes "
+        "the cache tag over takes the payload over too.")
     chk.assumptions = ["agreement between stream / positional / per-block APIs is not decided (value-level)"]
     n = 0
     for sname, tag, payload in ARRAY_CACHES:
@@ -1059,6 +1145,8 @@ def run(chk):
     chk.floor("K9-key", 1)
     copy_tag_rule(chk, prog)
     chk.floor("K9-copytag", 1)
+    codec_state_rule(chk, prog)
+    chk.floor("K3-statereset", 1)
     same_bound_rule(chk, prog)       # instances come and go with the code's structure: the controls keep the rule honest
     chk.floor("K9-array", 2)
     chk.floor("K9-ptr", 2)
